@@ -250,14 +250,14 @@ pub fn run(ctx: &mut Ctx) {
         let nb = [7, 4, 2][kind];
         for bnd in 0..nb as u32 {
             for d in 0..5usize {
-                ctx.random(&G_RESP, &[idx(kind, 3), bnd, idx(d, 5)], ctx.t(300, 20_000), 600);
+                ctx.random(&G_RESP, &[idx(kind, 3), bnd, idx(d, 5)], ctx.t(1_000, 20_000), 600);
             }
         }
         if ctx.too_many() {
             return;
         }
     }
-    ctx.random(&G_RESP, &[], ctx.t(20_000, 1_000_000), 600);
+    ctx.random(&G_RESP, &[], ctx.t(60_000, 1_000_000), 600);
     ctx.exhaustive.push("every (response kind, part boundary, remaining-space delta -2..+2) combination".into());
     ctx.require(&[
         "kind:register", "kind:authenticate", "kind:version", "fits", "overflow", "content:der-0x81-length", "content:der-0x82-length", "content:random", "first-part-not-fitting:reserved",
